@@ -78,6 +78,8 @@ CFG = dict(
         "the derived copies also redirect `time.Now().After(s.kill)`, `s.tick.Reset(w)` (wait) and `time.Sleep(v)` (connectContextInner) to an injected clock that "
         "advances exactly by the durations the code asks to wait; real timers, scheduling and network latency are not modelled (a Connect is an instant)",
         "time.Ticker.Reset panics on a non-positive interval (observed once per run by the harness)",
+        "time.Ticker under the `go 1.18` module line (asynctimerchan=1): channel buffer of one, Reset keeps a buffered tick -- modelled as `ticker`, "
+        "probed once per run; the three real-time scenarios only test `not earlier than 0.8 x sleep`",
     ],
     assumptions=[
         "work-hours fields are bytes (0..255), weekday 0..6, 0 <= ns of day < 24 h; sleep is an int64 number of ns >= 1 ms; jitter a byte; "
